@@ -444,6 +444,11 @@ pub fn drive_check(check: &'static dyn Check, tier: Tier, batch_seed: u64) -> Ch
         }
     }
     let findings = load_findings();
+    if std::env::var("VERIF_LIST_SIGS").is_ok() {
+        for ((p, t, sg), r) in groups.iter() {
+            println!("SIG {} {} {} first-seed={}", p, t, sg, r.seed);
+        }
+    }
     let mut exit_code = 0;
     let mut reported = 0u64;
     let mut known_lines = BTreeSet::new();
